@@ -212,7 +212,7 @@ func init() {
 		Pkgs: []string{"./dig"},
 		Runs: func(tier string) []HRun {
 			var rs []HRun
-			layouts := []int{0, 1, 5, 21, 63, 13, 45, 2, 42}
+			layouts := []int{0, 1, 5, 21, 63, 13, 45, 2, 42, 4, 16, 17, 20, 28, 52} // incl. indexed inputs after non-indexed ones
 			if tier == "thorough" {
 				layouts = rangeInts(0, 63)
 			}
@@ -677,10 +677,10 @@ func init() {
 		},
 		Assumptions: []string{
 			"cut points (engine redirects, same textual cuts natively): session.Get/Set (Get succeeds iff the cookie state is 'minted by this process'), http.Redirect/Error, Request.ParseForm/FormValue, net.SplitHostPort (malformed = solver Boolean), net.ParseIP(host).IsLoopback (oracle Boolean), Handler.template, age.GenerateX25519Identity",
-			"both switches, the loopback oracle, malformed address, form parse failure are solver Booleans; HTTP method and cookie state are case-split; configured and supplied passwords are symbolic strings of case-split length; the generated password is 8 arbitrary random bytes rendered in hex",
+			"both switches, the loopback oracle, malformed address, form parse failure are solver Booleans; the HTTP method is a symbolic string of 0,3..7 bytes (length case-split, bytes solver variables: every method name up to OPTIONS/CONNECT is covered); the cookie state is case-split; configured and supplied passwords are symbolic strings of case-split length; the generated password is 8 arbitrary random bytes rendered in hex",
 			"route table: read structurally from the SSA of cmd/shovel main (not a solver query): the five protected endpoints and any /save-* or /add-* path must be registered with a value produced by Authn",
 		},
-		Bounds:  map[string]string{"quick": "4 cookie states x 5 methods; password lengths {0(generated),1,4} x supplied lengths {0,1,4,5,16}", "thorough": "6 x 10 length pairs"},
+		Bounds:  map[string]string{"quick": "4 cookie states x methods of length 0,3..7 (symbolic bytes); password lengths {0(generated),1,4} x supplied lengths {0,1,4,5,16}", "thorough": "6 x 10 length pairs"},
 		Outside: []string{"age/session cryptography and cookies surviving a restart", "net.ParseIP itself"},
 	})
 }
